@@ -165,6 +165,10 @@ def shape (v : AView) : Nat × Nat := (v.nr, v.nc)
 
 /-- owner layouts: `FullColOrderScalarHelper(nr,nc)` (leading dimension nr), `ContiguousVectorScalarHelper(n,isRow)` -/
 def ownerMatrix (nr nc : Nat) : AView := ⟨0, nr, nc, 1, nr, false⟩
+/-- a `Matrix_` constructed with exactly one row (and not one column) gets the outline `Row`, for which
+`MatrixStorage::calcDefaultStorage` picks row order: `FullRowOrderScalarHelper` (leading dimension nc); the helper
+object — and with it the storage order — survives later resizes -/
+def ownerMatrixRowOrder (nr nc : Nat) : AView := ⟨0, nr, nc, nc, 1, false⟩
 def ownerVector (n : Nat) : AView := ⟨0, n, 1, 1, 1, false⟩
 def ownerRowVector (n : Nat) : AView := ⟨0, 1, n, 1, 1, false⟩
 
